@@ -15,11 +15,16 @@ const faultHook = true
 var errInjected = errors.New("verif: injected write fault")
 
 // armFault makes the j-th physical write from now (counting from 0) return an error, once.
+// faultFired reports whether the armed write actually failed (the op may have fewer writes).
+var faultFired bool
+
 func armFault(j int) {
 	seen := 0
+	faultFired = false
 	db.VerifWriteFault = func(op string, key []byte) error {
 		if seen == j {
 			seen++
+			faultFired = true
 			return errInjected
 		}
 		seen++
